@@ -291,11 +291,49 @@ void mmd_export_link_html(DString * out, const char * source, token * text, link
 	if ((scratch->extensions & EXT_RANDOM_LABELS) && !(scratch->extensions & EXT_NO_LABELS) &&
 			link->label && link->url && (link->url[0] == '#')) {
 		// An automatic link to a header has to follow the random id of that header
-		for (int i = 0; i < scratch->header_stack->size; ++i) {
-			if (stack_peek_index(scratch->header_stack, i) == link->label) {
-				header_index = i;
+		switch (link->label->type) {
+			case BLOCK_H1:
+			case BLOCK_H2:
+			case BLOCK_H3:
+			case BLOCK_H4:
+			case BLOCK_H5:
+			case BLOCK_H6:
+			case BLOCK_SETEXT_1:
+			case BLOCK_SETEXT_2: {
+				// Headers are stacked in document order -- search by source offset, so
+				// that many cross-references don't cost a scan of all headers each
+				int lo = 0;
+				int hi = (int) scratch->header_stack->size - 1;
+
+				while (lo <= hi) {
+					int mid = lo + (hi - lo) / 2;
+					token * h = stack_peek_index(scratch->header_stack, mid);
+
+					if (h == link->label) {
+						header_index = mid;
+						break;
+					} else if (h->start < link->label->start) {
+						lo = mid + 1;
+					} else {
+						hi = mid - 1;
+					}
+				}
+
+				if (header_index == -1) {
+					for (int i = 0; i < scratch->header_stack->size; ++i) {
+						if (stack_peek_index(scratch->header_stack, i) == link->label) {
+							header_index = i;
+							break;
+						}
+					}
+				}
+
 				break;
 			}
+
+			default:
+				// The link was defined by the user and happens to point at an anchor
+				break;
 		}
 	}
 
